@@ -62,3 +62,21 @@ NOT_APPLICABLE = {}
 
 BASELINE_CMD = ('cd /repo && env -u BEANQUERY_VERIF /venv/bin/python -m pytest -ra -q -p no:cacheprovider --timeout=900 '
                 '--continue-on-collection-errors')
+
+PROPS['C07'] = dict(
+    level='other', harness='h07', min_t1=0,
+    explanation='Bounded (T3) contract evaluation of Connection.execute: description == selected targets in order with the naming rule '
+                '(alias / column name / exact source slice that parses back), hidden GROUP BY / ORDER BY / HAVING targets never visible, '
+                'row length == description length, wildcard expansion on every table kind. T1 obligations on get_target_name and the '
+                'hidden-target branches are listed when built.',
+    trusted_base=['TatSu parseinfo.pos/endpos delimit the node text (exercised only by the bounded scope)'],
+    assumptions=[],
+)
+
+PROPS['C08'] = dict(
+    level='other', harness='h08', min_t1=2,
+    explanation='T1: in_/not_in_ operator bodies (membership, argument order) and the NULL-strict binary node (shared with C01). Bounded (T3): '
+                'FROM (subquery) vs. the outer query over a materialised table (names, datatypes, rows) for 10 inner x 8 outer forms x depth 1-3; '
+                'IN / NOT IN subqueries vs. list membership incl. NULL and empty-subquery cases, outer and inner over different tables.',
+    trusted_base=[], assumptions=[],
+)
